@@ -711,7 +711,7 @@ func hasTopkTie(ps *plannedSet, q *query) bool {
 // syntacticTrigger: the finding classes that are assigned by the shape of the expression alone
 // (see known_findings.jsonl for the causes and witnesses). Order: the most specific first.
 func syntacticTrigger(q *query) string {
-	hasSubq, atInRange, topkInner, scalarFilter, vvBinop, negOffset := false, false, false, false, false, false
+	hasSubq, atInRange, topkInner, scalarFilter, vvBinop, negOffset, multiMetric := false, false, false, false, false, false, false
 	var visit func(e expr, root bool, inSubq bool)
 	visit = func(e expr, root bool, inSubq bool) {
 		switch n := e.(type) {
@@ -721,6 +721,9 @@ func syntacticTrigger(q *query) string {
 			}
 			if n.offset < 0 {
 				negOffset = true
+			}
+			if n.matchers[0].kind != "eq" {
+				multiMetric = true
 			}
 		case *rangeFn:
 			visit(n.sel, false, inSubq)
@@ -775,6 +778,8 @@ func syntacticTrigger(q *query) string {
 		// a scalar filter comparison and a vector-vector operation in one expression, an operand
 		// with a negative offset
 		return "filter-above-binop-negative-offset"
+	case multiMetric:
+		return "multi-metric-selector-state-dependent"
 	}
 	return ""
 }
